@@ -109,33 +109,177 @@ func c31Mutex(p *an.Prog, r *an.R) {
 		if spec.name == "(*indexMutex).With" {
 			fParam = an.Param(info, d.Decl, 1)
 		}
-		isF := func(l an.Loc) bool {
-			return g.Contains(l, func(m ast.Node) bool {
-				c, ok := m.(*ast.CallExpr)
-				return ok && an.UsesObj(info, c.Fun, fParam)
-			})
+		// "f runs here": a direct call of the callback, a call that hands the callback on to a function of
+		// the package, or a call of a local closure whose body calls the callback
+		closureOf := func(fn ast.Expr) *ast.FuncLit {
+			if dd := defOf(info, d.Decl.Body, fn); dd != nil {
+				if fl, ok := ast.Unparen(dd).(*ast.FuncLit); ok {
+					return fl
+				}
+			}
+			return nil
 		}
+		callsFDirect := func(n ast.Node, cb types.Object) bool {
+			hit := false
+			ast.Inspect(n, func(m ast.Node) bool {
+				if c, ok := m.(*ast.CallExpr); ok && an.UsesObj(info, c.Fun, cb) {
+					hit = true
+				}
+				return true
+			})
+			return hit
+		}
+		runsF := func(gg *an.G, cb types.Object) func(l an.Loc) bool {
+			return func(l an.Loc) bool {
+				return gg.Contains(l, func(m ast.Node) bool {
+					c, ok := m.(*ast.CallExpr)
+					if !ok {
+						return false
+					}
+					if an.UsesObj(info, c.Fun, cb) {
+						return true
+					}
+					if fl := closureOf(c.Fun); fl != nil && callsFDirect(fl.Body, cb) {
+						return true
+					}
+					if callee := an.Callee(info, c); callee != nil && callee.Pkg() == f.Pkg() {
+						for _, a := range c.Args {
+							if an.UsesObj(info, a, cb) {
+								return true
+							}
+						}
+					}
+					return false
+				})
+			}
+		}
+		// scopes in which the lock protocol is checked: the method body, and closures of it that call f directly
+		type scope struct {
+			g    *an.G
+			lit  *ast.FuncLit
+			name string
+		}
+		scopes := []scope{{g, nil, fname}}
+		ast.Inspect(d.Decl.Body, func(n ast.Node) bool {
+			if fl, ok := n.(*ast.FuncLit); ok && callsFDirect(fl.Body, fParam) {
+				scopes = append(scopes, scope{an.NewG(info, fl.Body), fl, fname})
+			}
+			return true
+		})
+		lockOK := func(sg *an.G, l an.Loc) (bool, bool) {
+			isLock := func(k an.Loc) bool { return muCall(info, sg.Node(k), indexMu, spec.lock) }
+			isDeferUnlock := func(k an.Loc) bool { return deferredMuCall(info, sg.Node(k), indexMu, spec.unlock) }
+			noLock := sg.Reach(sg.Entry(), false, &an.Search{Target: func(k an.Loc) bool { return k == l }, Cut: isLock})
+			noDefer := sg.Reach(sg.Entry(), false, &an.Search{Target: func(k an.Loc) bool { return k == l }, Cut: isDeferUnlock})
+			return !noLock, !noDefer
+		}
+		isF := runsF(g, fParam)
 		fCalls := g.Locs(func(ast.Node) bool { return true })
 		nF := 0
-		for _, l := range fCalls {
-			if !isF(l) {
-				continue
+		for _, sc := range scopes {
+			scIsF := runsF(sc.g, fParam)
+			for _, l := range sc.g.Locs(func(ast.Node) bool { return true }) {
+				if !scIsF(l) {
+					continue
+				}
+				// a call of a local closure that itself takes the lock is checked inside that closure
+				viaClosure := false
+				sc.g.Contains(l, func(m ast.Node) bool {
+					if c, ok := m.(*ast.CallExpr); ok {
+						if fl := closureOf(c.Fun); fl != nil && callsFDirect(fl.Body, fParam) {
+							viaClosure = true
+						}
+					}
+					return false
+				})
+				held, deferred := lockOK(sc.g, l)
+				if viaClosure && !(held && deferred) {
+					continue // decided in the closure's own scope
+				}
+				if sc.lit != nil && !(held && deferred) {
+					// the closure expects the lock: every call site of it in the method body holds it
+					all, calls := true, 0
+					for _, cl := range g.Locs(func(ast.Node) bool { return true }) {
+						isCall := g.Contains(cl, func(m ast.Node) bool {
+							c, ok := m.(*ast.CallExpr)
+							return ok && closureOf(c.Fun) == sc.lit
+						})
+						if !isCall {
+							continue
+						}
+						calls++
+						h2, d2 := lockOK(g, cl)
+						if !(h2 && d2) {
+							all = false
+						}
+					}
+					if calls > 0 && all {
+						held, deferred = true, true
+					}
+				}
+				nF++
+				r.Check(held, "C31.R1", fname+"/f()/lock-held/"+spec.lock, sc.g.Node(l).Pos(), "indexMu."+spec.lock+"() precedes f() on every path", "f() is reachable without indexMu."+spec.lock+"(): the operation runs outside the mutual exclusion")
+				r.Check(deferred, "C31.R1", fname+"/f()/unlock-deferred", sc.g.Node(l).Pos(), "the unlock is deferred before f() runs (held until exit)", "f() is reachable without the unlock having been deferred: an early return or panic in f leaves the lock held, or the lock is released elsewhere")
 			}
-			nF++
-			isLock := func(k an.Loc) bool { return muCall(info, g.Node(k), indexMu, spec.lock) }
-			isDeferUnlock := func(k an.Loc) bool { return deferredMuCall(info, g.Node(k), indexMu, spec.unlock) }
-			noLock := g.Reach(g.Entry(), false, &an.Search{Target: func(k an.Loc) bool { return k == l }, Cut: isLock})
-			r.Check(!noLock, "C31.R1", fname+"/f()/lock-held/"+spec.lock, g.Node(l).Pos(), "indexMu."+spec.lock+"() precedes f() on every path", "f() is reachable without indexMu."+spec.lock+"(): the operation runs outside the mutual exclusion")
-			noDefer := g.Reach(g.Entry(), false, &an.Search{Target: func(k an.Loc) bool { return k == l }, Cut: isDeferUnlock})
-			r.Check(!noDefer, "C31.R1", fname+"/f()/unlock-deferred", g.Node(l).Pos(), "the unlock is deferred before f() runs (held until exit)", "f() is reachable without the unlock having been deferred: an early return or panic in f leaves the lock held, or the lock is released elsewhere")
 			// no explicit unlock of indexMu anywhere
-			for _, k := range g.Locs(func(n ast.Node) bool { return muCall(info, n, indexMu, "Unlock", "RUnlock") }) {
-				r.Bad("C31.R1", fname+"/explicit-unlock", g.Node(k).Pos(), "indexMu is unlocked explicitly inside "+fname+": f() may run (or still be running) without the lock")
+			for _, k := range sc.g.Locs(func(n ast.Node) bool { return muCall(info, n, indexMu, "Unlock", "RUnlock") }) {
+				r.Bad("C31.R1", fname+"/explicit-unlock", sc.g.Node(k).Pos(), "indexMu is unlocked explicitly inside "+fname+": f() may run (or still be running) without the lock")
 			}
 		}
 		r.Floor("C31.R1."+spec.name+".f-calls", 1, nF)
 		if spec.name != "(*indexMutex).With" {
 			continue
+		}
+		// the marker protocol lives where the callback is called directly: With itself, or the method of the
+		// package that With hands the callback to
+		if !callsFDirect(d.Decl.Body, fParam) {
+			var innerD *an.DeclInfo
+			var innerF types.Object
+			var innerFn *types.Func
+			ast.Inspect(d.Decl.Body, func(n ast.Node) bool {
+				c, ok := n.(*ast.CallExpr)
+				if !ok {
+					return true
+				}
+				callee := an.Callee(info, c)
+				if callee == nil || callee.Pkg() != f.Pkg() {
+					return true
+				}
+				for i, a := range c.Args {
+					if an.UsesObj(info, a, fParam) {
+						if hd := p.Decl(callee); hd != nil && hd.Decl.Body != nil {
+							innerD, innerFn = hd, callee
+							innerF = an.Param(info, hd.Decl, i)
+						}
+					}
+				}
+				return true
+			})
+			if !r.Anchor(innerD != nil && innerF != nil, fname+"/function that calls the callback") {
+				continue
+			}
+			// With must hand back what the inner function reports
+			retOK := true
+			ast.Inspect(d.Decl.Body, func(n ast.Node) bool {
+				if _, isLit := n.(*ast.FuncLit); isLit {
+					return false
+				}
+				if rs, ok := n.(*ast.ReturnStmt); ok {
+					c, isC := ast.Unparen(rs.Results[0]).(*ast.CallExpr)
+					if len(rs.Results) != 1 || !isC || an.Callee(info, c) != innerFn {
+						retOK = false
+					}
+				}
+				return true
+			})
+			r.Check(retOK, "C31.R2", fname+"/returns-what-the-inner-function-reports", d.Decl.Pos(), "With returns the result of "+an.FuncName(innerFn), "With does not return the ran/skipped report of "+an.FuncName(innerFn))
+			d, f, fParam = innerD, innerFn, innerF.(*types.Var)
+			fname = an.FuncName(innerFn)
+			r.Fn(fname)
+			aliasScope = d.Decl.Body
+			g = an.NewG(info, d.Decl.Body)
+			isF = runsF(g, fParam)
+			fCalls = g.Locs(func(ast.Node) bool { return true })
 		}
 		// running accessed only under runningMu (direct accesses in this body and in function literals)
 		var bodies []*ast.BlockStmt
